@@ -66,6 +66,7 @@ type ledgerStats struct {
 	hung            map[string]bool    // classes seen to be slow or not to return: not executed again (each costs that long again)
 	slow            map[string]float64 // observation: key -> seconds of the slowest call (calls that return, but take more than slowThreshold)
 	skippedHung     int64
+	followUps       map[string]int64 // follow-up blocks executed, by kind
 	notDecodable    map[string]int64 // mutants not executed because no codec round-trips the changed transaction
 	unknown         map[string]bool
 	samples         []any
@@ -73,7 +74,7 @@ type ledgerStats struct {
 
 func newLedgerStats() *ledgerStats {
 	return &ledgerStats{perEntry: map[string]int64{}, perEntryOK: map[string]int64{}, perFam: map[string]int64{}, entriesHit: map[int]bool{},
-		accepted: map[string]int64{}, distinct: map[string]bool{}, unknown: map[string]bool{}, hung: map[string]bool{}, slow: map[string]float64{}, notDecodable: map[string]int64{}}
+		accepted: map[string]int64{}, distinct: map[string]bool{}, unknown: map[string]bool{}, hung: map[string]bool{}, slow: map[string]float64{}, notDecodable: map[string]int64{}, followUps: map[string]int64{}}
 }
 
 // blockScope families build their own transaction (or change the block); they run once per block.
@@ -326,6 +327,34 @@ func mutateBlock(c *vlib.Ctx, st *ledgerStats, exts []ext, sim *chain.Sim, g *gu
 					map[string]any{"entry": lo.Entry, "extreme": e, "sealed": sealed, "rich_pool": rich, "panic": lo.O.Panic, "stack": lo.O.Stack, "config": cfg, "behaviour": beh.Steps[:step+1],
 						"target": map[string]any{"ver": m.ver, "index": m.k}, "block": mustJSON(m.b), "supplement": mustJSON(m.bs), "state": mustJSON(m.cs), "accepted_before_failure": lo.Accepted, "through_validate_block": viaBlock})
 			}
+			// follow-up histories on the state the accepted mutant leaves behind
+			if lo != nil && lo.Accepted && variant == 1 && followUpFamilies[e.Fam] {
+				for _, fr := range m.followUps(g, count) {
+					local.followUps[fr.kind]++
+					if fr.lo != nil && fr.lo.Accepted {
+						local.followUps[fr.kind+" accepted, applied, reverted"]++
+					}
+					if fr.lo == nil || !fr.lo.O.bad() {
+						continue
+					}
+					site := ledgerSite(fr.lo.O.Stack)
+					if site == "" {
+						site = fr.lo.Entry
+					}
+					kind := "panics: " + fr.lo.O.Panic
+					if fr.lo.O.TimedOut {
+						kind = fmt.Sprintf("has not returned after %v", longDeadline)
+					}
+					cls := e.class()
+					if m.class != "" {
+						cls = m.class
+					}
+					c.Violation(followKey(site, cls, fr.kind), fmt.Sprintf("%s %s on an honest follow-up block (%s) built on the state left by an ACCEPTED mutant: a valid block (height %d, %s era, transaction %s) changed by %v, re-signed and re-sealed, passed ValidateBlock and was applied", fr.lo.Entry, kind, fr.kind, child, era, shape, e),
+						map[string]any{"entry": fr.lo.Entry, "extreme": e, "sealed": true, "follow_up": fr.kind, "panic": fr.lo.O.Panic, "stack": fr.lo.O.Stack, "config": cfg, "behaviour": beh.Steps[:step+1],
+							"target": map[string]any{"ver": m.ver, "index": m.k}, "block": mustJSON(m.b), "supplement": mustJSON(m.bs), "state": mustJSON(m.cs),
+							"follow_up_block": mustJSON(fr.m.b), "follow_up_supplement": mustJSON(fr.m.bs), "follow_up_state": mustJSON(fr.m.cs)})
+				}
+			}
 			if len(local.samples) < 1 && lo != nil && lo.Accepted && e.Fam != "header" {
 				local.samples = append(local.samples, map[string]any{"extreme": e.String(), "sealed": sealed, "transaction": shape, "height": child, "outcome": "accepted, applied, reverted"})
 			}
@@ -407,6 +436,9 @@ func mutateBlock(c *vlib.Ctx, st *ledgerStats, exts []ext, sim *chain.Sim, g *gu
 	}
 	for k, v := range local.notDecodable {
 		st.notDecodable[k] += v
+	}
+	for k, v := range local.followUps {
+		st.followUps[k] += v
 	}
 	if len(st.samples) < 3 {
 		st.samples = append(st.samples, local.samples...)
